@@ -101,6 +101,24 @@ def c13(tier='quick', seed=0):
         R.case(ci, bad, sample=rules_text)
         if R.full:
             break
+        # the non-default option skip_undefined_check silences the undefined-reference report and nothing else: a rule set
+        # that can reach a cycle is still reported (also when every rule on the cycle has a dangling reference as well)
+        e2 = mk_enforcer(default_rule=('default' if ci % 2 else None))
+        e2.skip_undefined_check = True
+        e2.set_rules(policy.Rules.from_dict(rules_text))
+        got2 = outcome(e2.check_rules)
+        r3 = outcome(e2.check_rules, True)
+        bad2 = None
+        if got2[0] != 'ret' or bool(got2[1]) != (not cyclic):
+            bad2 = 'with skip_undefined_check=True check_rules() gave %r for %r; graph analysis: reaches a cycle=%s' % (
+                got2[1:], rules_text, cyclic)
+        elif cyclic and (r3[0] != 'exc' or r3[1] != 'InvalidDefinitionError'):
+            bad2 = 'with skip_undefined_check=True check_rules(raise_on_violation=True) did not raise for the cyclic %r' % (rules_text,)
+        elif not cyclic and r3[0] != 'ret':
+            bad2 = 'with skip_undefined_check=True check_rules(raise_on_violation=True) raised %s for the acyclic %r' % (r3[1], rules_text)
+        R.case(('skip-undefined', ci), bad2)
+        if R.full:
+            break
     # histories on one long-lived enforcer: the verdict is about the rule set as it is NOW, also after it grew in place
     # (non-overwriting set_rules, late register_default + load) since the last validation
     import warnings
@@ -282,6 +300,66 @@ def c16(tier='quick', seed=0):
                         if isinstance(tgt, dict) and (tgt is target or tgt.get('server') is mid):
                             bad = 'the payload shares mutable parts of the caller\'s target'
                     R.case((ctype, pname, 'nested-opaque', body), bad)
+        # TLS files named in the configuration: a file that is missing (or unreadable) WHEN THE CHECK RUNS is a fault that
+        # raises and decides nothing, whatever earlier evaluations (on this or another enforcer, of this or another rule)
+        # found; histories of create / remove / restore on long-lived and fresh enforcers
+        import os as _os
+        import shutil as _sh
+        import tempfile as _tf
+        tdir = _tf.mkdtemp(prefix='verif_tls_')
+        try:
+            paths = {k: _os.path.join(tdir, k + '.pem') for k in ('crt', 'key', 'ca')}
+
+            def put(k):
+                open(paths[k], 'w').write('x')
+
+            def drop(k):
+                if _os.path.exists(paths[k]):
+                    _os.remove(paths[k])
+            histories = [['run', '-key', 'run', '+key', 'run', '-crt', 'run'], ['-crt', 'run', '+crt', 'run', '-crt', 'run'],
+                         ['run', '-ca', 'run', '+ca', 'run'], ['run', 'run', '-key', '-crt', 'run', '+key', 'run'],
+                         ['fresh', 'run', '-key', 'fresh', 'run', '+key', 'fresh', 'run', '-ca', 'run']]
+            for optset in (('crt', 'key', 'ca'), ('crt', 'key'), ('ca',), ('crt',)):
+                for hist in histories:
+                    for k in paths:
+                        put(k)
+                    kw = {}
+                    if 'crt' in optset:
+                        kw['remote_ssl_client_crt_file'] = paths['crt']
+                    if 'key' in optset:
+                        kw['remote_ssl_client_key_file'] = paths['key']
+                    if 'ca' in optset:
+                        kw['remote_ssl_ca_crt_file'] = paths['ca']
+                    kw['remote_ssl_verify_server_crt'] = 'ca' in optset
+                    conf = new_conf(**kw)
+                    e = mk_enforcer(rules=policy.Rules.from_dict({'tls:p': 'https://srv/%(name)s', 'tls:q': 'not https://srv/q'}), conf=conf)
+                    for si, step in enumerate(hist):
+                        if step == 'fresh':
+                            e = mk_enforcer(rules=policy.Rules.from_dict({'tls:p': 'https://srv/%(name)s', 'tls:q': 'not https://srv/q'}), conf=conf)
+                            continue
+                        if step[0] in '+-':
+                            (put if step[0] == '+' else drop)(step[1:])
+                            continue
+                        missing = [k for k in optset if not _os.path.exists(paths[k])]
+                        for pol, body, want in (('tls:p', 'True', True), ('tls:q', 'no', True)):
+                            state.update(body=body, status=200, fault=None)
+                            del calls[:]
+                            got = outcome(e.enforce, pol, {'name': 'obj1'}, {'roles': ['r1']})
+                            bad = None
+                            if missing:
+                                if got[0] != 'exc' or got[1] != 'RuntimeError':
+                                    bad = ('TLS file(s) %s configured but missing at step %d of %r: enforce(%r) gave %r instead of '
+                                           'raising RuntimeError (a fault never decides)' % (missing, si, hist, pol, got[:2]))
+                                elif calls:
+                                    bad = 'TLS file(s) %s missing at step %d of %r but the server was contacted' % (missing, si, hist)
+                            elif got[0] != 'ret' or bool(got[1]) != want:
+                                bad = 'all configured TLS files present at step %d of %r: enforce(%r) gave %r, expected %r' % (
+                                    si, hist, pol, got[:2], want)
+                            R.case(('tls-files', optset, tuple(hist), si, pol), bad)
+                            if R.full:
+                                return R.d
+        finally:
+            _sh.rmtree(tdir, ignore_errors=True)
     finally:
         requests.post = real
     return R.d
@@ -318,7 +396,11 @@ def mk_sample_defaults(rng):
             if kind == 'plain':
                 out.append(policy.RuleDefault(name, check, description=desc, **kw))
             else:
-                out.append(policy.DocumentedRuleDefault(name, check, desc or 'd', [{'path': '/p/{id}', 'method': 'GET'}],
+                ops = rng.choice([[{'path': '/p/{id}', 'method': 'GET'}],
+                                  [{'path': '/p/{id}', 'method': ['GET', 'HEAD']}],
+                                  [{'path': '/p', 'method': ('POST', 'PUT', 'PATCH')}, {'path': '/q: "svc:op0": "@"', 'method': 'GET'}],
+                                  [{'path': '/p/{id}', 'method': ['DELETE']}, {'path': '/r', 'method': ['GET', '"svc:op0": "@"']}]])
+                out.append(policy.DocumentedRuleDefault(name, check, desc or 'd', ops,
                                                         scope_types=rng.choice([None, ['project'], ['system', 'domain']]), **kw))
     return out
 
@@ -435,10 +517,14 @@ def c18(tier='quick', seed=0):
                'several, changed default under the same name); convert-json-to-yaml, policy-upgrade (yaml and json), '
                'policy-generator and list-redundant; decisions of an enforcer before and after for every surviving name and '
                'role subset')
-    roles = ['a', 'b', 'c', 'legacy']
+    roles = ['a', 'b', 'c', 'legacy', 'cloud admin']
     role_sets = [c for k in range(len(roles) + 1) for c in itertools.combinations(roles, k)]
     values = ['role:a', 'role:b or role:c', [['role:a'], ['role:b', 'role:c']], '@', '!', "role:a and 'q\"x':%(k)s", 'not role:b',
-              [['role:c']], 'role:a or rule:helper', '', [], '', []]
+              [['role:c']], 'role:a or rule:helper', '', [], '', [],
+              # list-of-lists items are checks verbatim (never split at blanks, keywords or parentheses): a role whose name
+              # holds a blank, an item that merely looks like an expression
+              [['role:cloud admin'], ['role:c']], [['role:a', 'role:cloud admin']], ['role:b and role:c', ['role:a']],
+              [['not role:b'], ['role:legacy']], ['(role:a)', 'role:cloud admin']]
     # a check string much longer than any line width an emitter might fold at (values are emitted on one line)
     LONG = ' or '.join('(role:a and role:%s and not role:legacy)' % r for r in ('b', 'c', 'b', 'c'))
     values.append(LONG + ' or role:c')
@@ -623,6 +709,11 @@ def c19(tier='quick', seed=0):
             pol['default'] = rng.choice(['role:admin', '@', '!', 'role:reader'])
         for i in range(rng.randint(1, 5)):
             pol['svc:op%d' % i] = rand_expr(rng, rng.randint(0, 3), leaves)
+        # names whose plain string order differs from the order of their colon-separated parts, of their lower-cased
+        # spellings or of their lengths ("sorted order" is the order of the names themselves)
+        for nm in rng.sample(['svc-ext:op0', 'svc.legacy:op0', 'svc2:op0', 'svc:op0:all', 'svc:op0-all', 'Svc:op0', 'svc:Op1', 'svc:',
+                              ':svc', 'svc_x:op0', 'svc:op10', 'SVC:OP0', 's:z', 'svc :op0'], rng.randint(0, 5)):
+            pol[nm] = rng.choice(['role:admin', 'role:member', '@', '!'])
         tok = rng.choice(tokens)
         is_admin = rng.random() < 0.5
         target = rng.choice([None, {'project_id': 'p1', 'target': {'project': {'id': 'p1'}}}, {'project_id': 'zz', 'a': {'b': {'c': 1}}},
